@@ -22,7 +22,7 @@ class C16(PropBase):
             "for 3 aircraft; -f over random subsets of {0,4,5,11,16,17,18,20,21,24} plus none/all/single; -c on/off; -M lists overlapping -f partly in half of the cases. Counter "
             "line of the real display (last 'DFn:count' line printed during the reader run) against the count of generated "
             "accepted frames per DF and against the model; table with -f against the table of the stream restricted to the "
-            "listed formats; the same with a silent aircraft due to expire and 12-30 rejected frames among 1-8 listed ones (rejected frames must not advance the sweep). Non-trivial = at least one frame counted / filtered out; distinct by stream and option set.")
+            "listed formats; the same with a silent aircraft due to expire and 12-30 rejected frames among 1-8 listed ones (rejected frames must not advance the sweep). Non-trivial = at least one frame counted / filtered out; distinct by stream and option set. Also through the built binary: -c with several -f, long names, a -f value that names no format - its last counter line.")
 
     def stream(self, rng, n):
         addrs = [0x4B0001, 0x4B0002, 0xA00003]
